@@ -285,7 +285,32 @@ def gen_cases(seed, chunk, n, tier):
     return out
 
 
+def probe_known(ctx):
+    """deterministic probe of the recorded finding solve-odd-matrix (replayed on every run)"""
+    import symmray as sr
+
+    a = sr.Z2FermionicArray(indices=(sr.BlockIndex({0: 2, 1: 2}), sr.BlockIndex({0: 2, 1: 2}, dual=True)),
+                            charge=1, oddpos=3,
+                            blocks={(0, 1): np.array([[2., 1.], [1., 3.]]), (1, 0): np.array([[1., 2.], [0., 1.]])})
+    b = sr.Z2FermionicArray(indices=(sr.BlockIndex({0: 2, 1: 2}),), charge=1, oddpos=5,
+                            blocks={(1,): np.array([1., 2.])})
+    ctx.evaluations += 1
+    try:
+        x = sr.linalg.solve(a, b)
+        back = sr.tensordot(a, x, 1, mode="blockwise", preserve_array=True)
+        e = values_close(back, b, 1e-9)
+        labels_ok = [(o.label, o.dual) for o in back.oddpos] == [(o.label, o.dual) for o in b.oddpos]
+        if e or not labels_ok or oracle.py_valid(x):
+            ctx.violation("factor: a·x does not reproduce b (odd matrix): " + str(e or "labels/validity differ"),
+                          dict(probe="solve-odd-matrix", a=ser.enc_array(a), b=ser.enc_array(b)),
+                          triggers={"odd_matrix"}, op="solve")
+    except Exception as ex:  # noqa
+        ctx.violation(f"solve raised {type(ex).__name__}: {ex}", dict(probe="solve-odd-matrix"),
+                      triggers={"odd_matrix"}, op="solve")
+
+
 def run(ctx):
+    probe_known(ctx)
     n = 4000 if ctx.tier == "quick" else 30000
     stream.run_stream(ctx, "factor", "harness.props.c11", "gen_cases", n, per_chunk=50,
                       canon_kw=dict(structure=True), raise_kinds=False)
